@@ -58,9 +58,12 @@ CLAIMS = {
               "puts the new value in force and wakes everybody before it yields. Connectives: All/Any.__bool__ are and/or over the "
               "children's current values; a & b / a | b (Condition, All, Any) build exactly the documented child lists and evaluate to "
               "and/or of the operands; ~ on Flag/InverseFlag/Done/NotDone/After/Before/Eternity/Instant yields a condition with the "
-              "negated value; await (a & b) / (a | b) suspends at least once and completes only when the connective evaluates true.",
+              "negated value; await (a & b) / (a | b) suspends at least once and completes only when the connective evaluates true. "
+              "Tracked values: a comparison registers itself with each tracked operand; Tracked.set puts the new value in force and has "
+              "every registered comparison re-evaluated for it before the setter yields.",
               "Assumed: contextlib.ExitStack + the subscriptions it holds inside Connective.__await_children__ (interface contract). "
-              "Not under contract: De Morgan inversion of All/Any (comprehension that allocates), Tracked/resource comparisons.", "5/C08"),
+              "AsyncComparison.__on_changed__/__bool__ (closure stored in a field) are an assumed interface. Not under contract: De Morgan "
+              "inversion of All/Any (comprehension that allocates), resource-level comparisons.", "5/C08"),
  "C09": claim("Every function of Lock under contract: FIFO hand-off, re-entrancy depth arithmetic, `available`, exit routes of "
               "__aenter__ (neither owner nor waiter after any abnormal exit, ownership passed on), invariants (free lock idle, designated "
               "owner has a live wake-up, a live wake-up belongs to the owner, waiters distinct and never the owner) at every yield point.",
@@ -92,7 +95,7 @@ CLAIMS = {
  "C20": claim("Suspension counters: at least one suspension on every normal-completion path (per step for async generators) of "
               "postpone, suspend, Notification/Condition/After/Before/Moment/Instant awaits, Flag.set, Task.__await__, Scope.__await__, "
               "Queue.put/close/_await_message, Channel.put/close/__await__, Pipe.transfer, UnboundedPipe.transfer, interval, delay, Scope._await_children.",
-              "Not covered yet: Tracked.set, Resources, collect/first, Channel.__aiter__ steps (no postponement per buffered item by design), Scope.__aexit__'s normal path as a separate clause; "
+              "Tracked.set. Not covered yet: AsyncOperation.__await__, Resources, collect/first, Channel.__aiter__ steps (no postponement per buffered item by design), Scope.__aexit__'s normal path as a separate clause; "
               "K-yield (one suspension lets every runnable activity run) is kernel theory, assumed.", "5/C20"),
 }
 
